@@ -22,6 +22,7 @@ from vsc.model.expr_in_model import ExprInModel
 from vsc.model.expr_range_model import ExprRangeModel
 from vsc.model.expr_rangelist_model import ExprRangelistModel
 from vsc.model.expr_unary_model import ExprUnaryModel
+from vsc.model.expr_partselect_model import ExprPartselectModel
 from vsc.model.model_visitor import ModelVisitor
 from vsc.visitors.model_pretty_printer import ModelPrettyPrinter
 
@@ -178,7 +179,10 @@ class ConstraintCopyBuilder(ModelVisitor):
         
     def visit_constraint_unique(self, c:ConstraintUniqueModel):
         if self.do_copy_level > 0:
-            self.constraints.append(c.clone())
+            # Copy the terms as well: they may refer to the index of the
+            # foreach iteration that is being expanded
+            self.constraints.append(ConstraintUniqueModel(
+                [self.expr(e) for e in c.unique_l]))
         else:
             super().visit_constraint_unique(c)
         
@@ -253,6 +257,15 @@ class ConstraintCopyBuilder(ModelVisitor):
         else:
             super().visit_expr_unary(e)
         
+    def visit_expr_partselect(self, e):
+        if self.do_copy_level > 0:
+            self._expr = ExprPartselectModel(
+                self.expr(e.lhs),
+                self.expr(e.upper),
+                None if e.lower is None else self.expr(e.lower))
+        else:
+            super().visit_expr_partselect(e)
+            
     def visit_expr_array_subscript(self, s):
         if self.do_copy_level > 0:
             self._expr = ExprArraySubscriptModel(
